@@ -281,7 +281,8 @@ impl Sched {
                         } else {
                             *e = (sw, 0);
                         }
-                        if e.1 >= 8 {
+                        // (asleep and not scheduled once over 24 samples, about ten milliseconds)
+                        if e.1 >= 24 {
                             blocked.push((name.clone(), a.last_site));
                         } else {
                             running = true;
@@ -296,7 +297,7 @@ impl Sched {
             if !running {
                 return Some(Settled { parked, blocked });
             }
-            std::thread::sleep(Duration::from_micros(300));
+            std::thread::sleep(Duration::from_micros(400));
         }
     }
 }
